@@ -730,7 +730,7 @@ def run(chk):
     chk.assumptions = ["relative paths of the streams are pairwise distinct (they are distinct directories)",
                        "|clock + offset| < 2^63 (no signed overflow in stream_evclock)",
                        "PRV thread-state records (type 4) are written in the order the events are processed; the e2e traces make every event change the thread state"]
-    proved = chk.translate_and_prove(["cmp_player", "loader", "loader_step", "stepper"])
+    proved = chk.translate_and_prove(["cmp_player", "loader", "loader_step", "stepper", "tables", "pv", "emuloop", "traceload"])
 
     build = common.repo_build("hook")
     hdir = os.path.join(common.BUILD, "harness")
@@ -817,6 +817,88 @@ def run(chk):
     chk.sample({"op": "clock-offset table", "class": tcases[k][0], "clock_offsets_txt": tcases[k][2].decode("latin1")[:400], "looms": tcases[k][1]["looms"][:6],
                 "impl": timpl[k][:300], "model": (tmodl[k] or "")[:300]})
     chk.coverage["tables_validated_against_impl"] = len(tcases)
+
+    # ---------------------------------------------------------------- traceload (a): the GENERATED trace_load (extracted) against the real one, in process
+    # BEGIN traceload.  Real side: harness/tracewalk_h.c = the real trace.c (trace_load, cb_nftw, is_stream, load_stream,
+    # cmp_streams), real nftw/opendir/path.c on a tree made here; only stream_load is a stub.  Model side: the extracted
+    # Gen/TraceLoad_gen.v over Emu/TraceLoadPre.v (oracle/tracewalk_drv.ml), the walk being the entries of the tree in a
+    # SHUFFLED order (C03_trace_load_walk_order_independent_from_source: the order of the walk does not matter).
+    corr_tw = []
+    hx3 = os.path.join(hdir, "tracewalk_h-" + build.tree)
+    if not os.path.exists(hx3):
+        for f in os.listdir(hdir) if os.path.isdir(hdir) else []:
+            if f.startswith("tracewalk_h-"):
+                os.remove(os.path.join(hdir, f))
+        common.cc_harness(hx3, [os.path.join(common.VERIF, "harness", "tracewalk_h.c")], build, extra=build.libs_emu + ["-lm"])
+    oracle3 = None
+    try:
+        oracle3 = common.build_oracle("tracewalk", "Extract_tracewalk", "tracewalk_drv.ml", "tracewalk_x")
+    except Exception as e:
+        chk.notes.append("tracewalk oracle unavailable: %r" % (e,))
+        if not getattr(chk, "proof_broken", None):
+            chk.proof_broken = {"kind": "extraction", "error": repr(e)[:500]}
+    twroot = os.path.join(common.BUILD, "tracewalk-%d" % os.getpid())
+    shutil.rmtree(twroot, ignore_errors=True)
+    twl_impl, twl_model, twinfo = [], [], []
+    names = [b"a", b"b", b"A", b"a0", b"a-", b"~", b"\xc3\xa9", b"stream.json", b"stream.jsonx", b"xstream.json", b"stream.obs", b"loom.h.1", b"proc.7", b"thread.7", b"ab"]
+    for j in range(chk.budget(150, 1500)):
+        r = rng.fork("tw%d" % j)
+        root = os.path.join(twroot, "t%d" % j).encode()
+        os.makedirs(root)
+        entries = [(root, "D")]
+        dirs = [root]
+        for _ in range(r.range(0, 9)):
+            par = r.choice(dirs)
+            nm = r.choice(names)
+            pth = os.path.join(par, nm)
+            if os.path.lexists(pth):
+                continue
+            if r.chance(1, 2) and pth.count(b"/") < root.count(b"/") + 5:
+                os.mkdir(pth)
+                dirs.append(pth)
+                entries.append((pth, "D"))
+            else:
+                open(pth, "wb").close()
+                entries.append((pth, "F"))
+        for dd in dirs:                                           # most directories are streams
+            pth = os.path.join(dd, b"stream.json")
+            if r.chance(2, 3) and not os.path.lexists(pth):
+                open(pth, "wb").close()
+                entries.append((pth, "F"))
+        given = root + r.choice([b"", b"", b"/", b"//"])
+        missing = r.chance(1, 25)
+        if missing:
+            given = root + b"-missing"
+        expect = sorted(os.path.dirname(p)[len(root):].lstrip(b"/") for p, t in entries if t == "F" and os.path.basename(p) == b"stream.json")
+        twinfo.append((given, entries, None if missing else expect))
+        twl_impl.append("W " + given.hex())
+        walk = r.shuffle(list(entries))
+        twl_model.append("W %s %s%s" % (given.hex(), ";".join("%s:%s" % (p.hex(), t) for p, t in walk) or "-", " X" if missing else ""))
+    twi = pbatch(hx3, twl_impl)
+    twm = pbatch(oracle3, twl_model) if oracle3 else [None] * len(twl_impl)
+    shutil.rmtree(twroot, ignore_errors=True)
+    ntw = 0
+    for (given, entries, expect), ti, tm in zip(twinfo, twi, twm):
+        chk.case(("TW", given.hex(), tuple(sorted(p.hex() + t for p, t in entries))))
+        chk.count("tracewalk:impl=%s" % (ti.split(" ")[0],))
+        want = "fail" if expect is None else "ok n=%d %s" % (len(expect), ",".join(e.hex() or "." for e in expect) or "-")
+        if ti != want and ntw < 4:                                # the spec, said independently: the stream directories, sorted by relative path as bytes
+            ntw += 1
+            chk.violation("tracewalk:" + hashlib.md5(repr(sorted(entries)).encode()).hexdigest()[:12],
+                          "trace_load: the streams of the loaded trace are not the directories holding a regular file stream.json, sorted by relative path",
+                          {"given": given.decode("latin1"), "entries": [(p.decode("latin1"), t) for p, t in entries][:40], "impl": ti[:800], "expected": want[:800],
+                           "how": "make the tree; echo 'W <dir hex>' | build/harness/tracewalk_h-*"})
+        if tm is not None and tm != ti:
+            corr_tw.append((given.decode("latin1"), [(p.decode("latin1"), t) for p, t in entries][:20], ti[:300], tm[:300]))
+    chk.coverage["trace_trees_validated_against_impl"] = len(twinfo)
+    if corr_tw:
+        chk.coverage["tracewalk_disagreements"] = [repr(x)[:600] for x in corr_tw[:10]]
+        if ntw == 0:
+            chk.violation("broken-correspondence:tracewalk",
+                          "trace_load: generated code over TraceLoadPre.v and implementation disagree on %d trees, none of which violates the property's spec" % len(corr_tw),
+                          {"correspondence": "Gen/TraceLoad_gen.v + Emu/TraceLoadPre.v vs trace.c / nftw / path.c (harness/tracewalk_h.c)",
+                           "disagreements": [repr(x)[:1500] for x in corr_tw[:20]]}, found_input=False)
+    # END traceload
 
     # ---------------------------------------------------------------- (a) heap
     scripts = []
